@@ -1056,7 +1056,10 @@ class StrategyBase(Node):
         if self.fixed_income:
             [c.transact(-c.position, update=False) for c in self._childrenv if c.position != 0]
         else:
-            [c.allocate(-c.value, update=False) for c in self._childrenv if c.value != 0]
+            # close each child the way close() does: a sub-strategy is
+            # liquidated first and only then is its remaining value (net of the
+            # costs of liquidating) withdrawn
+            [self.close(c.name, update=False) for c in self._childrenv if c.value != 0]
 
         self.root.stale = True
 
